@@ -66,8 +66,8 @@ def do_replay(path):
         print("REPLAY %s: %s" % (p["name"], "reproduced" if reproduced else "not reproduced"))
         return 1 if reproduced else 0
     if p["kind"] == "smt":
-        import smtcommon
-        return smtcommon.replay(p)
+        import smttasks
+        return smttasks.replay(p)
     print("unknown replay kind")
     return 2
 
